@@ -105,3 +105,30 @@ register('C17', 'proof',
                       'supervisor.options.split_namespec is a deterministic function of the namespec',
                       'handlers are atomic (single Supervisor thread)'],
          extra='pyvc.structural_c17')
+register('C20', 'proof',
+         'Data-structure proof on the real source of statscompiler.py. trunc_depth: loop invariant "lst is a suffix of old", '
+         'len\' = min(len, depth), termination. ProcStatisticsInstance.push_statistics and '
+         'HostStatisticsInstance.push_statistics (times / mem / per-core cpu series): the object invariant (every series has '
+         'len(times) points, at most depth) is preserved from ANY state satisfying it, a point is produced iff a reference '
+         'exists and now - ref.now >= period, the reference rolls over exactly then and on the first push. cpu_statistics: '
+         'values in [0, 100] for non-decreasing counters, 0 when total = 0. io_statistics: only interfaces present in both '
+         'samples with non-decreasing counters, rates >= 0 (reals). _push_cpu_stats: one point more per core, cut to depth.',
+         not_decided=['alignment / bound of the net_io, disk_io, disk_usage series (HostStatisticsInstance._push_timed_stats: '
+                      'four loops incl. a nested zip loop over aliased lists) - the function is only used through an ASSUMED '
+                      'frame contract (it does not write the times / mem / cpu lists); its body is NOT verified',
+                      'ProcStatisticsHolder.push_statistics / ProcStatisticsCompiler / HostStatisticsCompiler (pid 0 => entry '
+                      'dropped, pid change => fresh histories, holder deleted when empty): need object construction inside '
+                      'summarised dict comprehensions, not supported by the engine yet',
+                      'process CPU <= 100 per core: needs d(proc_work) <= d(now) * cores, a fact about the kernel accounting',
+                      'the cpu values stored by HostStatisticsInstance.push_statistics equal cpu_statistics(sample, ref) '
+                      '(proved for _push_cpu_stats and cpu_statistics separately, composition left out: solver time)',
+                      'statscollector.py (psutil, child process)'],
+         assumptions=['floats treated as reals (one rounding step could give 100.00000000000001)',
+                      'sample payload shapes of contracts/shapes.py REC_KEYS (cpu: list of (work, idle), net_io / disk_io: '
+                      '{name: (in, out)}, disk_usage: {path: percent})',
+                      'period > 0 and depth >= 1 (options.to_period: [1, 3600], to_histo: [10, 1500]; C18); '
+                      'HostStatisticsInstance.depth is an int (built from options.stats_histo only)',
+                      'the times / mem / cpu / per-core lists of one HostStatisticsInstance are distinct objects (established by '
+                      '__init__ and the first push, stated as precondition and proved preserved)',
+                      'ASSUMED frame of HostStatisticsInstance._push_timed_stats (unverified): writes only the dictionary given, '
+                      'the integrated values and history lists other than times / mem / cpu'])
